@@ -5,6 +5,7 @@ package main
 import (
 	"bytes"
 	"crypto"
+	_ "crypto/md5"
 	_ "crypto/sha1"
 	_ "crypto/sha256"
 	_ "crypto/sha512"
@@ -22,7 +23,9 @@ import (
 	"golang.org/x/crypto/openpgp"
 	"golang.org/x/crypto/openpgp/armor"
 	"golang.org/x/crypto/openpgp/clearsign"
+	pgperr "golang.org/x/crypto/openpgp/errors"
 	"golang.org/x/crypto/openpgp/packet"
+	_ "golang.org/x/crypto/ripemd160"
 	"verifharness/hx"
 )
 
@@ -140,7 +143,89 @@ func key() *openpgp.Entity {
 	return entity
 }
 
-var hashes = map[string]crypto.Hash{"SHA256": crypto.SHA256, "SHA1": crypto.SHA1, "SHA512": crypto.SHA512, "SHA384": crypto.SHA384, "SHA224": crypto.SHA224}
+var hashes = map[string]crypto.Hash{"SHA256": crypto.SHA256, "SHA1": crypto.SHA1, "SHA512": crypto.SHA512, "SHA384": crypto.SHA384, "SHA224": crypto.SHA224,
+	"MD5": crypto.MD5, "RIPEMD160": crypto.RIPEMD160, "MD4": crypto.MD4, "SHA3_256": crypto.SHA3_256}
+
+var (
+	key2Once sync.Once
+	entity2  *openpgp.Entity
+)
+
+func key2() *openpgp.Entity {
+	key2Once.Do(func() {
+		e, err := openpgp.NewEntity("verif2", "c46", "verif2@example.org", &packet.Config{RSABits: 2048})
+		if err != nil {
+			panic(err)
+		}
+		entity2 = e
+	})
+	return entity2
+}
+
+// clearsign.EncodeMulti with nk keys (alternating the two test keys); enc=1 marks the first key as encrypted
+func clrMulti(o hx.Op) string {
+	h := hashes[string(o.Hex("hash"))]
+	ents := []*openpgp.Entity{key(), key2(), key()}[:o.Int("nk")]
+	var keys []*packet.PrivateKey
+	for _, e := range ents {
+		keys = append(keys, e.PrivateKey)
+	}
+	if o.Int("enc") == 1 && len(keys) > 0 {
+		c := *keys[0]
+		c.Encrypted = true
+		keys[0] = &c
+	}
+	var buf bytes.Buffer
+	cfg := &packet.Config{DefaultHash: h, Time: func() time.Time { return time.Unix(1700000001, 0) }}
+	w, err := clearsign.EncodeMulti(&buf, keys, cfg)
+	if err != nil {
+		switch err.(type) {
+		case pgperr.InvalidArgumentError:
+			return "err:arg"
+		case pgperr.UnsupportedError:
+			return "err:unsup"
+		}
+		return "err:other"
+	}
+	for _, c := range splitBy(o.Hex("pt"), o.Ints("ch")) {
+		w.Write(c)
+	}
+	if err := w.Close(); err != nil {
+		return "err:close"
+	}
+	out := buf.Bytes()
+	i := bytes.LastIndex(out, []byte("-----BEGIN PGP SIGNATURE-----"))
+	if i < 0 {
+		return "no-signature"
+	}
+	b, rest := clearsign.Decode(out)
+	if b == nil {
+		return fmt.Sprintf("text=%s dec=nil", hx.Hex(out[:i]))
+	}
+	sigBytes, _ := io.ReadAll(b.ArmoredSignature.Body)
+	nsig := 0
+	pr := packet.NewReader(bytes.NewReader(sigBytes))
+	for {
+		p, err := pr.Next()
+		if err != nil {
+			break
+		}
+		if _, ok := p.(*packet.Signature); ok {
+			nsig++
+		}
+	}
+	sig := "none"
+	if len(ents) > 0 {
+		sig = "ok"
+		for _, e := range ents { // each signer's key alone must find and verify its own signature packet
+			if _, err := openpgp.CheckDetachedSignature(openpgp.EntityList{e}, bytes.NewReader(b.Bytes), bytes.NewReader(sigBytes)); err != nil {
+				sig = "bad"
+			}
+		}
+	}
+	return fmt.Sprintf("text=%s dec=ok hashes=%s pt=%s bytes=%s rest=%s nsig=%d sig=%s", hx.Hex(out[:i]), showHashes(b.Headers["Hash"]),
+		hx.Hex(b.Plaintext), hx.Hex(b.Bytes), hx.Hex(rest), nsig, sig)
+}
 
 func clearsignText(h crypto.Hash, chunks [][]byte) []byte {
 	var buf bytes.Buffer
@@ -229,6 +314,11 @@ func run(line string) string {
 		}
 		return fmt.Sprintf("text=%s dec=ok hashes=%s pt=%s bytes=%s rest=%s sig=%s", hx.Hex(text), showHashes(b.Headers["Hash"]),
 			hx.Hex(b.Plaintext), hx.Hex(b.Bytes), hx.Hex(rest), checkSig(b.Bytes, b))
+	case "clrm":
+		if _, ok := hashes[string(o.Hex("hash"))]; !ok {
+			return "bad-op"
+		}
+		return clrMulti(o)
 	case "clr2":
 		out1 := clearsignText(crypto.SHA256, splitBy(o.Hex("pt"), o.Ints("ch")))
 		b1, _ := clearsign.Decode(out1)
@@ -540,7 +630,16 @@ func genArm(g *hx.Gen) {
 	body := r.Bytes(bodyLen(r, g))
 	g.Stat("arm")
 	g.Stat(fmt.Sprintf("arm.headers=%d", len(ks2)))
-	g.Emit("arm ty=%s hk=%s hv=%s ch=%s body=%s", hx.Hex(ty), hexJoin(ks2), hexJoin(vs2), hx.JoinInts(chunking(r, len(body))), hx.Hex(body))
+	chk := chunking(r, len(body))
+	coverT("header-count", fmt.Sprint(len(ks2)))
+	coverT("body-class", bclass(len(body)))
+	g.Stat(fmt.Sprintf("pair.arm.headers=%d+body=%s", len(ks2), bclass(len(body))))
+	g.Stat(fmt.Sprintf("pair.arm.body=%s+writes=%s", bclass(len(body)), wclass(chk)))
+	switch string(ty) {
+	case "PGP MESSAGE", "PGP SIGNATURE", "PGP PUBLIC KEY BLOCK", "PGP PRIVATE KEY BLOCK", "X":
+		coverT("armor-type", string(ty))
+	}
+	g.Emit("arm ty=%s hk=%s hv=%s ch=%s body=%s", hx.Hex(ty), hexJoin(ks2), hexJoin(vs2), hx.JoinInts(chk), hx.Hex(body))
 }
 
 func armorOf(ty string, hdr map[string]string, body []byte) []byte {
@@ -825,8 +924,57 @@ func genClrDec(g *hx.Gen) {
 	g.Emit("clrdec data=%s", hx.Hex([]byte(pre+head+eol+hdrs+eol+text+sig+post)))
 }
 
+var tHit = map[string]map[string]bool{}
+var tSize = map[string]int{"hash-name": 9, "armor-type": 5, "header-count": 4, "body-class": 5}
+
+func coverT(t, e string) {
+	if tHit[t] == nil {
+		tHit[t] = map[string]bool{}
+	}
+	tHit[t][e] = true
+}
+
+func wclass(ch []int) string {
+	switch {
+	case len(ch) == 0:
+		return "1"
+	case len(ch) < 8:
+		return "few"
+	}
+	return "many"
+}
+
+func bclass(n int) string {
+	switch {
+	case n == 0:
+		return "0"
+	case n < 48:
+		return "<1line"
+	case n%48 == 0:
+		return "k*48"
+	case n < 2000:
+		return "lines"
+	}
+	return "large"
+}
+
 func gen(g *hx.Gen) {
-	n := g.Count(3000, 100000)
+	defer func() {
+		for t, total := range tSize {
+			g.StatN(fmt.Sprintf("table.%s=%d/%d", t, len(tHit[t]), total), 1)
+		}
+	}()
+	// sweep: every hash name × every signer count, every header count × body class
+	for _, hn := range []string{"SHA256", "SHA1", "SHA512", "SHA384", "SHA224", "MD5", "RIPEMD160", "MD4", "SHA3_256", "SHA256", "SHA1", "MD5", "RIPEMD160", "SHA512", "SHA384", "SHA224", "MD4", "SHA3_256"} {
+		for nk := 0; nk < 4; nk++ {
+			pt := plaintext(g.R, g)
+			g.Stat("clrm")
+			g.Stat("pair.clrm.hash=" + hn + "+keys=" + fmt.Sprint(nk))
+			coverT("hash-name", hn)
+			g.Emit("clrm nk=%d enc=0 hash=%s ch=%s pt=%s", nk, hx.Hex([]byte(hn)), hx.JoinInts(chunking(g.R, len(pt))), hx.Hex(pt))
+		}
+	}
+	n := g.Count(2850, 100000)
 	r := g.R
 	for i := 0; i < n; i++ {
 		switch k := r.Intn(20); {
@@ -836,6 +984,22 @@ func gen(g *hx.Gen) {
 			genDec(g)
 		case k < 15:
 			pt := plaintext(r, g)
+			if r.Chance(1, 6) { // EncodeMulti: 0..3 signers, every hash name of nameOfHash, refused configurations
+				hn := r.PickStr("SHA256", "SHA1", "SHA512", "SHA384", "SHA224", "MD5", "RIPEMD160")
+				nk, enc := r.Intn(4), 0
+				switch r.Intn(10) {
+				case 0:
+					hn = r.PickStr("MD4", "SHA3_256") // not an OpenPGP hash name: UnsupportedError
+				case 1:
+					enc = 1 // encrypted signing key: InvalidArgumentError
+				}
+				ch := chunking(r, len(pt))
+				g.Stat("clrm")
+				g.Stat("pair.clrm.hash=" + hn + "+keys=" + fmt.Sprint(nk))
+				coverT("hash-name", hn)
+				g.Emit("clrm nk=%d enc=%d hash=%s ch=%s pt=%s", nk, enc, hx.Hex([]byte(hn)), hx.JoinInts(ch), hx.Hex(pt))
+				continue
+			}
 			if r.Chance(1, 5) {
 				lp, ch := longRun(r, g)
 				g.Stat("clr")
@@ -843,7 +1007,11 @@ func gen(g *hx.Gen) {
 				continue
 			}
 			g.Stat("clr")
-			g.Emit("clr hash=%s ch=%s pt=%s", hx.Hex([]byte(r.PickStr("SHA256", "SHA256", "SHA1", "SHA512", "SHA384", "SHA224"))), hx.JoinInts(chunking(r, len(pt))), hx.Hex(pt))
+			hn := r.PickStr("SHA256", "SHA256", "SHA1", "SHA512", "SHA384", "SHA224", "MD5", "RIPEMD160")
+			ch := chunking(r, len(pt))
+			coverT("hash-name", hn)
+			g.Stat(fmt.Sprintf("pair.clr.hash=%s+writes=%s", hn, wclass(ch)))
+			g.Emit("clr hash=%s ch=%s pt=%s", hx.Hex([]byte(hn)), hx.JoinInts(ch), hx.Hex(pt))
 		case k < 17:
 			pt := plaintext(r, g)
 			g.Stat("clr2")
